@@ -220,6 +220,137 @@ class Abstract:
         return hash(self.name)
 
 
+def _hashable(v: Any) -> bool:
+    try:
+        hash(v)
+        return True
+    except TypeError:
+        return False
+
+
+class _Return(Exception):
+    def __init__(self, value):
+        self.value = value
+
+
+class _Break(Exception):
+    pass
+
+
+class _Continue(Exception):
+    pass
+
+
+def exec_function(it: "ModelInterp", fn: ast.FunctionDef, bind: Dict[str, Any]) -> Any:
+    """The value a (small, loop-free or for-loop) function body returns over the model: statements executed in order
+    on an environment of model values - assignments, conditionals, for loops over model sequences, try / except by
+    exception name, mutation of local containers.  Anything else is DTop (undecided), never a guess."""
+    env = dict(it.names)
+    env.update(bind)
+
+    def store(target, value, sub):
+        if isinstance(target, ast.Name):
+            env[target.id] = value
+        elif isinstance(target, (ast.Tuple, ast.List)):
+            vals = list(value)
+            if len(vals) != len(target.elts):
+                raise Raises("ValueError", "unpack")
+            for t, v in zip(target.elts, vals):
+                store(t, v, sub)
+        elif isinstance(target, ast.Subscript):
+            base = sub().ev(target.value)
+            key = sub().ev(target.slice)
+            if isinstance(base, dict) and not _hashable(key):
+                raise Raises("TypeError", "unhashable key: " + u(target)[:60])
+            if isinstance(base, (dict, list)):
+                try:
+                    base[key] = value
+                except (IndexError, TypeError) as exc:
+                    raise Raises(type(exc).__name__, u(target)[:60])
+            else:
+                raise DTop("store into " + type(base).__name__)
+        else:
+            raise DTop("store target " + type(target).__name__)
+
+    def sub():
+        return it._sub(env)
+
+    def run(stmts):
+        for st in stmts:
+            if isinstance(st, ast.Expr):
+                if isinstance(st.value, ast.Constant):
+                    continue
+                sub().ev(st.value)
+            elif isinstance(st, ast.Assign):
+                v = sub().ev(st.value)
+                for t in st.targets:
+                    store(t, v, sub)
+            elif isinstance(st, ast.AnnAssign):
+                if st.value is not None:
+                    store(st.target, sub().ev(st.value), sub)
+            elif isinstance(st, ast.AugAssign):
+                cur = sub().ev(ast.BinOp(left=_load(st.target), op=st.op, right=st.value))
+                store(st.target, cur, sub)
+            elif isinstance(st, ast.If):
+                s_ = sub()
+                run(st.body if s_.truth(s_.ev(st.test)) else st.orelse)
+            elif isinstance(st, ast.For):
+                seq = sub().ev(st.iter)
+                broke = False
+                for item in list(seq):
+                    store(st.target, item, sub)
+                    try:
+                        run(st.body)
+                    except _Break:
+                        broke = True
+                        break
+                    except _Continue:
+                        continue
+                if not broke:
+                    run(st.orelse)
+            elif isinstance(st, ast.Return):
+                raise _Return(sub().ev(st.value) if st.value is not None else None)
+            elif isinstance(st, ast.Pass):
+                continue
+            elif isinstance(st, ast.Break):
+                raise _Break()
+            elif isinstance(st, ast.Continue):
+                raise _Continue()
+            elif isinstance(st, ast.Raise):
+                exc = st.exc
+                raise Raises(u(exc.func) if isinstance(exc, ast.Call) else (u(exc) if exc is not None else "Exception"), u(st)[:60])
+            elif isinstance(st, ast.Try) and not st.finalbody:
+                try:
+                    run(st.body)
+                except Raises as r:
+                    for h in st.handlers:
+                        if h.type is None or catches(handler_type_names(h.type), r.etype):
+                            run(h.body)
+                            break
+                    else:
+                        raise
+                else:
+                    run(st.orelse)
+            else:
+                raise DTop("statement " + type(st).__name__)
+
+    try:
+        run(fn.body)
+    except _Return as r:
+        return r.value
+    return None
+
+
+def _load(t: ast.expr) -> ast.expr:
+    import copy as _c
+
+    t2 = _c.deepcopy(t)
+    for n in ast.walk(t2):
+        if hasattr(n, "ctx"):
+            n.ctx = ast.Load()
+    return t2
+
+
 class ModelInterp(Interp):
     """Interp + the builtins needed to evaluate resolution cascades over a MODEL of a dimension
     (a handful of class representatives: alias / element id / sub-variable id / position / stale ...).
@@ -232,6 +363,8 @@ class ModelInterp(Interp):
     def __init__(self, atoms, names: Optional[Dict[str, Any]] = None):
         super().__init__(atoms, self._call)
         self.names = names or {}
+        self.members = None  # name -> FunctionDef of a property of the modelled object (evaluated over the model on demand)
+        self._member_cache: Dict[str, Any] = {}
 
     def ev(self, e: ast.expr) -> Any:
         try:
@@ -299,11 +432,32 @@ class ModelInterp(Interp):
                 except IndexError:
                     raise Raises("IndexError", u(e)[:60])
             if isinstance(base, dict):
+                if not _hashable(idx):
+                    raise Raises("TypeError", "unhashable key: " + u(e)[:60])
                 if idx not in base:
                     raise Raises("KeyError", u(e)[:60])
                 return base[idx]
             if base is None:
                 raise Raises("TypeError", u(e)[:60])
+        if isinstance(e, ast.Attribute) and isinstance(e.value, ast.Name) and e.value.id == "self" and getattr(self, "members", None) is not None:
+            # a property of the modelled object that the model does not give: its body, evaluated over the model (once)
+            cache = self._member_cache
+            if e.attr in cache:
+                return cache[e.attr]
+            fn = self.members(e.attr)
+            if fn is not None and not fn.args.args[1:]:
+                cache[e.attr] = exec_function(self, fn, {})
+                return cache[e.attr]
+        if isinstance(e, ast.Compare) and any(isinstance(op, (ast.In, ast.NotIn)) for op in e.ops):
+            left = self.ev(e.left)
+            for op, right_e in zip(e.ops, e.comparators):
+                right = self.ev(right_e)
+                if isinstance(op, (ast.In, ast.NotIn)) and isinstance(right, (dict, set, frozenset)) and not _hashable(left):
+                    raise Raises("TypeError", "unhashable key: " + u(e)[:60])
+                if not self.compare(op, left, right):
+                    return False
+                left = right
+            return True
         return super().ev(e)
 
     def _sub(self, env):
@@ -407,7 +561,20 @@ class ModelInterp(Interp):
             if m == "get":
                 if not isinstance(recv, dict):
                     raise Raises("AttributeError", u(c)[:60])
+                if not _hashable(args[0]):
+                    raise Raises("TypeError", "unhashable key: " + u(c)[:60])
                 return recv.get(args[0], args[1] if len(args) > 1 else None)
+            if m in ("update", "append", "extend", "add", "setdefault", "insert", "remove", "discard", "pop") and isinstance(recv, (dict, list, set)):
+                # mutation of a LOCAL model value (statement bodies: see exec_function)
+                kw = {k.arg: self.ev(k.value) for k in c.keywords if k.arg}
+                try:
+                    return getattr(recv, m)(*[list(a) if m in ("update", "extend") and not isinstance(a, dict) else a for a in args], **kw)
+                except TypeError:
+                    raise Raises("TypeError", u(c)[:60])
+                except (KeyError, ValueError, IndexError) as exc:
+                    raise Raises(type(exc).__name__, u(c)[:60])
+            if m == "isdecimal" and isinstance(recv, str):
+                return recv.isdecimal()
             if m == "index" and isinstance(recv, (tuple, list)):
                 if args[0] in recv:
                     return list(recv).index(args[0])
